@@ -176,7 +176,23 @@ MODEL_IS_SPEC = True  # proved: model output = boolean-sequence spec on every va
 def oracle_lines(lines, impl_outs):
     # the spec is written for clarity (unary indices); it is run on the short histories only.
     # for the long ones the model, proved equal to the spec, is the reference.
-    return ["blspec" + l[2:] if len(l) < 1500 and int(l.split()[1]) < 1000 else None for l in lines]
+    def bits(l):
+        t = l.split()
+        n = max(0, int(t[1]))
+        for op in t[2:]:
+            c = op[0]
+            if c == "a":
+                n += 1
+            elif c == "A":
+                n += int(op[1:].split(":")[0])
+            elif c == "y":
+                n += 8
+            elif c == "s":
+                n += int(op.split(":")[1])
+            elif c == "S":
+                n = max(n, int(op[1:].split(":")[0]) + 1)
+        return n
+    return ["blspec" + l[2:] if len(l) < 1500 and bits(l) < 4000 else None for l in lines]
 
 
 def oracle_verdict(line, impl_out, oracle_out):
